@@ -2,6 +2,7 @@
 package planner
 
 import (
+	"fmt"
 	"time"
 
 	"github.com/getlantern/golog"
@@ -26,7 +27,14 @@ type Opts struct {
 	QueryCluster    QueryClusterFN
 }
 
-func Plan(sqlString string, opts *Opts) (core.FlatRowSource, error) {
+func Plan(sqlString string, opts *Opts) (plan core.FlatRowSource, err error) {
+	defer func() {
+		// malformed input must yield an error, never a panic
+		if p := recover(); p != nil {
+			plan = nil
+			err = fmt.Errorf("Unable to plan %v: %v", sqlString, p)
+		}
+	}()
 	query, err := sql.Parse(sqlString)
 	if err != nil {
 		return nil, err
